@@ -57,7 +57,45 @@ func constInt(v ssa.Value) (*big.Int, bool) {
 	return n, ok
 }
 
+// guardedAccess: maps declared "guardedby" a mutex may only be read or written while it is held.
+func (f *fnTrans) guardedAccess(ins ssa.Instruction, m ssa.Value) {
+	ld, ok := m.(*ssa.UnOp)
+	if !ok {
+		return
+	}
+	fa, ok := ld.X.(*ssa.FieldAddr)
+	if !ok {
+		return
+	}
+	st, key, local := f.w.localStruct(deref(fa.X.Type()))
+	if st == nil || !local {
+		return
+	}
+	for _, g := range f.w.Spec.GuardedBy {
+		if g[0] != key || g[1] != st.Field(fa.Field).Name() {
+			continue
+		}
+		mu := f.w.SubRef(key, g[2], f.val(fa.X))
+		cond := Select(f.heap("X$_$locked"), mu)
+		k := f.nOb["guarded"]
+		o := f.oblige("guarded", fmt.Sprintf("%s.%s is accessed only while %s.%s is held", g[0], g[1], g[0], g[2]), ins.Pos(), strings.Split(g[3], ","), f.here(), cond)
+		o.Name = fmt.Sprintf("%s/guarded:%s.%s#%d", f.name, g[0], g[1], k)
+	}
+}
+
 func (f *fnTrans) instr(ins ssa.Instruction) {
+	switch x := ins.(type) {
+	case *ssa.MapUpdate:
+		f.guardedAccess(ins, x.Map)
+	case *ssa.Lookup:
+		f.guardedAccess(ins, x.X)
+	}
+	switch ins.(type) {
+	case *ssa.MapUpdate, *ssa.Lookup:
+		f.atAnchor(ins) // these anchors denote the state just before the access
+	default:
+		defer f.atAnchor(ins)
+	}
 	switch ins := ins.(type) {
 	case *ssa.DebugRef:
 	case *ssa.Phi:
@@ -503,7 +541,7 @@ func (f *fnTrans) makeInterface(ins *ssa.MakeInterface) {
 		return
 	}
 	r := f.fresh("iface", SInt)
-	f.factHere(And(Gt(r, IntLit(0)), Eq(App("dyntype", SInt, r), tag)))
+	f.factHere(And(Gt(r, IntLit(0)), Eq(App("dyntype", SInt, r), tag), Eq(App("root", SInt, r), IntLit(0))))
 	f.vals[ins] = r
 }
 
@@ -730,7 +768,11 @@ func (f *fnTrans) subtypeObligations(ins *ssa.Return, ord int, names map[string]
 				f.unsupported("%s: interface ensures %q: %v", cl.Line, cl.Src, err)
 				continue
 			}
-			o := f.oblige("subtype", fmt.Sprintf("implements %s: ensures %s", k, cl.Src), ins.Pos(), f.allProps, f.here(), t)
+			props := cl.Props
+			if len(props) == 0 {
+				props = f.allProps
+			}
+			o := f.oblige("subtype", fmt.Sprintf("implements %s: ensures %s", k, cl.Src), ins.Pos(), props, f.here(), t)
 			o.Name = fmt.Sprintf("%s/implements:%s/post%d@ret%d", f.name, k, i, ord)
 		}
 	}
